@@ -41,7 +41,7 @@ def input_event(word):
     return "bytes", list(w)
 
 
-def build_corpus(rep, seed, n_grammars, max_units, bits_share=0.15, bytes_share=0.2, regex_ok=True, extra=None):
+def build_corpus(rep, seed, n_grammars, max_units, bits_share=0.15, bytes_share=0.2, regex_ok=True, extra=None, nullable=None):
     """-> list of case dicts {gid, g, spec, enum, inside, outside}"""
     rnd = random.Random(seed)
     grammars = {}
@@ -58,6 +58,20 @@ def build_corpus(rep, seed, n_grammars, max_units, bits_share=0.15, bytes_share=
             continue        # keeps the exhaustive enumeration of the corpus small (a corpus choice, not an oracle)
         grammars[gid] = g
     for g in (extra or []):
+        gid += 1
+        grammars[gid] = g
+    # grammars in which a named empty-deriving symbol is expected at several places (same input position included)
+    seen = set()
+    rnd2 = random.Random(seed + 77)
+    want = max(4, n_grammars // 5) if nullable is None else nullable
+    for _ in range(want * 20):
+        if len(seen) >= want:
+            break
+        g = gen.rand_nullable_grammar(rnd2)
+        key = gen.render(g)
+        if key in seen or gen.count_derivations(g, max_units) > 2500:
+            continue
+        seen.add(key)
         gid += 1
         grammars[gid] = g
     text_like = {k: g for k, g in grammars.items() if g["flavour"] != "bits"}
